@@ -321,6 +321,7 @@ def scanLoop {B : Type} (s : St) (dec : Int → LoopAcc B → Chunk → Take B) 
 /-- loop body of `getDataPacketsToRetransmit` -/
 def rtxDecide {B : Type} (s : St) (allow : B → Int → Bool × B) (awnd : BitVec 32) (i : Int) (a : LoopAcc B) (c : Chunk) : Take B :=
   if !c.retransmit then .skip
+  else if isAbandoned a.aband s.allInflightMsgs c then .skip   -- abandoned after it was marked: never sent again (the flag stays)
   else if !(rtx_isProbe i s.rwnd (c.len : Int)) && rtx_exceedsWindow a.bytesToSend (c.len : Int) awnd then .stop a.b
   else
     let cb := c.sizeInPacket s.cfg.useInterleaving
